@@ -2,7 +2,10 @@ package props
 
 import (
 	"fmt"
+	"os"
+	"path/filepath"
 	"strings"
+	"sync"
 
 	"github.com/glycerine/zygomys/v9/zygo"
 	"zyverif/core"
@@ -99,6 +102,23 @@ func restKind(d sut.Depths) string {
 	return strings.Join(k, "+")
 }
 
+var c04FilesOnce sync.Once
+
+// c04Subst fills a template: $ is the case-unique suffix, %DIR% the directory of
+// the three files the include/source forms read (written once per worker).
+func c04Subst(c *core.Ctx, f, suffix string) string {
+	if strings.Contains(f, "%DIR%") {
+		c04FilesOnce.Do(func() {
+			os.MkdirAll(c.Work, 0755)
+			os.WriteFile(filepath.Join(c.Work, "one.zy"), []byte("7\n(+ 1 2)\n"), 0644)
+			os.WriteFile(filepath.Join(c.Work, "two.zy"), []byte("(* 2 4)\n"), 0644)
+			os.WriteFile(filepath.Join(c.Work, "empty.zy"), []byte("// nothing here\n"), 0644)
+		})
+		f = strings.ReplaceAll(f, "%DIR%", c.Work)
+	}
+	return strings.ReplaceAll(f, "$", suffix)
+}
+
 // declaration surface: forms of the full language, $ is replaced by a
 // case-unique suffix (types live in a process-global registry).
 var c04Decl = [][]string{
@@ -121,6 +141,7 @@ var c04Decl = [][]string{
 	{"(def lz$ (fn [#x y] (cond (> y 0) (force #x) 0)))", "(lz$ (+ 1 2) 1)", "(lz$ (+ 1 2) 0)", "(apply lz$ [5 1])"},
 	{"(def s$ \"abc\")", "(concat s$ \"d\")", "(len s$)", "(str 12)", "(sget s$ 1)", "`raw $`", "'c'"},
 	{"(def l$ (list 1 2 3))", "(first l$)", "(rest l$)", "(cons 0 l$)", "(map (fn [x] (* x x)) l$)", "(apply + l$)", "(quote (a b))", "%(1 2)"},
+	{"(include \"%DIR%/one.zy\" \"%DIR%/two.zy\")", "(+ 1 (include \"%DIR%/two.zy\"))", "(include [\"%DIR%/one.zy\" \"%DIR%/empty.zy\"])", "(include \"%DIR%/empty.zy\")", "(source \"%DIR%/one.zy\")", "(len [1 (begin) (newScope) 2])", "(+ 1 2 (or (begin) 4))", "(begin)", "(newScope)", "(def inc$ (include \"%DIR%/one.zy\" \"%DIR%/one.zy\" \"%DIR%/two.zy\"))", "inc$"},
 	{"(def f$ (fn [a & r] (len r)))", "(f$ 1)", "(f$ 1 2 3)", "((fn [] 7))", "(let [k 2] (letseq [m k n (+ m 1)] (* m n)))", "(newScope (def inner$ 1) inner$)", "(begin 1 2 3)", "(and 1 2)", "(or 0 nil 3)"},
 }
 
@@ -254,13 +275,13 @@ func c04DeclCase(c *core.Ctx, i int) *core.Result {
 	suffix := fmt.Sprintf("x%dq%d", i, c.Seed%1000)
 	var forms []string
 	for _, f := range tmpl {
-		forms = append(forms, strings.ReplaceAll(f, "$", suffix))
+		forms = append(forms, c04Subst(c, f, suffix))
 	}
 	for _, f := range second {
-		forms = append(forms, strings.ReplaceAll(f, "$", suffix+"b"))
+		forms = append(forms, c04Subst(c, f, suffix+"b"))
 	}
 	whole := strings.Join(forms, "\n") + "\n"
-	res := &core.Result{Input: whole, Hash: core.HashOf(strings.ReplaceAll(whole, suffix, "")), Nontrivial: true}
+	res := &core.Result{Input: whole, Hash: core.HashOf(strings.ReplaceAll(strings.ReplaceAll(whole, suffix, ""), c.Work, "@")), Nontrivial: true}
 	sep := NewSutRun(true)
 	mon := &balMon{}
 	mon.install(sep.Env)
@@ -326,7 +347,7 @@ func c04History(c *core.Ctx, i int) *core.Result {
 		switch r.N(4) {
 		case 0:
 			tm := c04Decl[r.N(len(c04Decl))]
-			t = strings.ReplaceAll(tm[r.N(len(tm))], "$", fmt.Sprintf("h%dk%d", i, k))
+			t = c04Subst(c, tm[r.N(len(tm))], fmt.Sprintf("h%dk%d", i, k))
 		case 1:
 			t = []string{"(+ 1", ")", "(undefined-fn 3)", "(aget [1] 9)", "(let)", "{1 +}", "(/ 1 0)", "(for [1 2] 3)", "\"open", "(break)"}[r.N(10)]
 		default:
